@@ -3,6 +3,7 @@ import SqfModel.Generated.Registry
 import SqfModel.VM.Sched
 import SqfModel.Config
 import SqfModel.Api
+import SqfModel.Control
 import Driver.Proto
 import Std.Data.HashMap
 /-!
@@ -290,6 +291,64 @@ def verbApi (e : Env) (f : List (List Nat)) : List Nat :=
   | [] => []
   | o :: rest => rest.foldl (fun acc x => acc ++ str " ; " ++ x) o
 
+/-! ### ctl: sequences of execute(action) on one VM -/
+
+def ctlResName : Sqf.Ctl.Res → List Nat
+  | .invalid => str "invalid" | .empty => str "empty" | .ok => str "ok"
+  | .actionError => str "action_error" | .runtimeError => str "runtime_error"
+
+/-- line of the next instruction for a program laid out with the given line of every top-level statement:
+    the statement the bottom frame is in = number of `endStatement`s it has passed -/
+def ctlLineOf (layout : List Nat) (c : Sqf.VM.Ctx) : Option Nat :=
+  match c.frames with
+  | [] => none
+  | top :: _ =>
+    if top.pc < top.code.length then
+      match c.frames.getLast? with
+      | some bottom =>
+        let passed := ((bottom.code.take bottom.pc).filter (fun i => match i with | .endStatement => true | _ => false)).length
+        layout[passed]?
+      | none => none
+    else none
+
+def ctlPosition (layout : List Nat) (r : Sqf.Ctl.Rt) : List Nat :=
+  match r.ctx with
+  | none => str "L-:F0"
+  | some c =>
+    if c.frames.isEmpty then str "L-:F0"
+    else str "L" ++ (match ctlLineOf layout c with | some l => natStr l | none => str "-") ++ str ":F" ++ natStr c.frames.length
+
+def verbCtl (e : Env) (f : List (List Nat)) : List Nat :=
+  let text := f.headD []
+  let actions := (f[1]?).getD []
+  let layout := match f[2]? with
+    | some l => if l.isEmpty then [] else (splitOn 44 l).map natOfBytes
+    | none => []
+  let m0 : Sqf.VM.M := { parse := assemble e.real }
+  let r0 : Option Sqf.Ctl.Rt :=
+    if text == str "-" then some { m := m0 }
+    else match assemble e.real text with
+      | some prog => some { ctx := some { frames := [{ code := prog }], id := 1 }, m := m0 }
+      | none => none
+  match r0 with
+  | none => str "parse-error"
+  | some r0 =>
+    let lineOf := ctlLineOf layout
+    let (r, out) := actions.foldl (fun (acc : Sqf.Ctl.Rt × List Nat) a =>
+      let act : Option Sqf.Ctl.Action :=
+        if a == 83 then some .start else if a == 84 then some .stop else if a == 65 then some .abort
+        else if a == 97 then some .assemblyStep else if a == 108 then some .lineStep else if a == 118 then some .leaveScope else none
+      match act with
+      | none => (acc.1, acc.2 ++ str " ; bad-action")
+      | some act =>
+        let o := Sqf.Ctl.exec lineOf acc.1 act
+        (o.1, acc.2 ++ str " ; " ++ ctlResName o.2 ++ str ":" ++ Sqf.VM.stateName o.1.state ++ str ":" ++ ctlPosition layout o.1))
+      (r0, str "init:empty:" ++ ctlPosition layout r0)
+    let tr := match Sqf.VM.varsGet (Sqf.VM.nsGet r.m.nss 0) (str "tr") with
+      | some v => Sqf.VM.renderV r.m v
+      | none => str "undef"
+    out ++ str " | tr=" ++ tr
+
 def handle (e : Env) (verb : String) (f : List (List Nat)) : List Nat :=
   if verb == "asm" then verbAsm e f
   else if verb == "lex" then verbLex f
@@ -299,6 +358,7 @@ def handle (e : Env) (verb : String) (f : List (List Nat)) : List Nat :=
   else if verb == "eq" then verbEq e f
   else if verb == "cfg" then verbCfg f
   else if verb == "api" then verbApi e f
+  else if verb == "ctl" then verbCtl e f
   else str "bad-verb"
 
 partial def loop (e : Env) (h : IO.FS.Stream) (out : IO.FS.Stream) : IO Unit := do
